@@ -198,8 +198,44 @@ func (p *c12) aliasRebind(rec *core.Recorder, r *core.Rand) {
 	A := func(v string) string { return "<a:" + v + ":da>" }
 	B := func(v string) string { return "<b:" + v + ":db>" }
 	var want string
-	v := r.Intn(12)
+	v := r.Intn(17)
+	L := func(v string) string { return "<l:" + v + ":dl>" }
+	local := "{% macro x(v, w = 'dl') %}<l:{{ v }}:{{ w }}>{% endmacro %}"
+	// a library whose macros call each other and themselves, by name and through _self
+	srcs["ls"] = "{% macro outer(v) %}[{{ inner(v) }}{{ _self.inner(v) }}]{% endmacro %}{% macro inner(v) %}<i:{{ v }}>{% endmacro %}" +
+		"{% macro rec(n) %}{{ n }}{% if n > 1 %},{{ _self.rec(n - 1) }}{% endif %}{% endmacro %}{% macro rec2(n) %}{{ n }}{% if n > 1 %};{{ rec2(n - 1) }}{% endif %}{% endmacro %}"
+	sib := func(v string) string { return "[<i:" + v + "><i:" + v + ">]|3,2,1|2;1" }
 	switch v {
+	case 12:
+		// an aliased import of another library's x leaves the template's own x alone
+		srcs["main"] = local + "{% from 'lb' import x as y %}{{ y(" + a + ") }}|{{ x(" + b + ") }}|{{ _self.x(" + c + ") }}"
+		want = B(a) + "|" + L(b) + "|" + L(c)
+	case 13:
+		srcs["main"] = "{% from 'la' import x %}{% from 'lb' import x as y %}{{ x(" + a + ") }}|{{ y(" + b + ") }}|{{ x(" + c + ") }}"
+		want = A(a) + "|" + B(b) + "|" + A(c)
+	case 14:
+		// macros that call their siblings, however the library is reached; the importing template's own macros of the
+		// same names are not what they call
+		own := []string{"", "{% macro inner(v) %}<WRONG:{{ v }}>{% endmacro %}{% macro rec(n) %}WRONG{% endmacro %}{% macro rec2(n) %}WRONG{% endmacro %}"}[r.Intn(2)]
+		switch r.Intn(4) {
+		case 0:
+			srcs["main"] = own + "{% import 'ls' as " + alias + " %}{{ " + alias + ".outer(" + a + ") }}|{{ " + alias + ".rec(3) }}|{{ " + alias + ".rec2(2) }}"
+		case 1:
+			srcs["main"] = "{% from 'ls' import outer, rec, rec2 %}{{ outer(" + a + ") }}|{{ rec(3) }}|{{ rec2(2) }}"
+		case 2:
+			srcs["main"] = own + "{% from 'ls' import outer as o2, rec as r2, rec2 as r3 %}{{ o2(" + a + ") }}|{{ r2(3) }}|{{ r3(2) }}"
+		default:
+			srcs["main"] = srcs["ls"] + "{{ outer(" + a + ") }}|{{ _self.rec(3) }}|{{ rec2(2) }}"
+		}
+		want = sib(a)
+	case 15:
+		srcs["main"] = "{% for i in [1] %}{% include 'part' %}{% endfor %}"
+		srcs["part"] = "{% macro inner(v) %}<WRONG>{% endmacro %}{% import 'ls' as " + alias + " %}{{ " + alias + ".outer(" + a + ") }}|{{ " + alias + ".rec(3) }}|{{ " + alias + ".rec2(2) }}"
+		want = sib(a)
+	case 16:
+		// from-import of one name, then an aliased import of a different macro: neither disturbs the other nor the local one
+		srcs["main"] = local + "{% from 'la' import x as ax %}{% from 'lb' import x as bx %}{{ ax(" + a + ") }}|{{ bx(" + b + ") }}|{{ x(" + c + ") }}|{{ ax(" + c + ") }}"
+		want = A(a) + "|" + B(b) + "|" + L(c) + "|" + A(c)
 	case 0:
 		srcs["main"] = "{% import 'la' as " + alias + " %}{{ " + alias + ".x(" + a + ") }}|{% import 'lb' as " + alias + " %}{{ " + alias + ".x(" + b + ") }}"
 		want = A(a) + "|" + B(b)
